@@ -53,6 +53,10 @@ def gen_script(rng, tier):
         if api == "mt":
             ps += [(400, rng.choice([1, 2, 3])), (401, 1)]
         L.append("CSWEEP %s %s %d %d %d %s" % (api, rng.choice(KINDS), n, rng.randint(1, 9999), len(ps), " ".join("%d %d" % kv for kv in ps)))
+    # directed: sub-block writers with very little room (targetCBlockSize, optimal parser, stable output / short one-shot destination)
+    for api in ("stableOut", "compress2"):
+        L.append("CSWEEP %s %s %d %d 4 100 %d 201 1 101 17 130 %d" % (api, rng.choice(["sparse", "text", "mix"]), rng.choice([20000, 60000]), rng.randint(1, 9999), rng.choice([19, 13, 5]), rng.choice([1340, 2000, 5000])))
+    L.append("CSWEEP sequences text 1 %d 1 100 3" % rng.randint(1, 9999))
     for _ in range(10 if tier == "quick" else 24):
         api = rng.choice(DAPIS)
         n = rng.choice([0, 1, 100, 1023, 1024, 5000, 131071, 131072, 131073, 200000, 400000])
